@@ -151,7 +151,8 @@ def rules_raise(run):
         run.check(ev in ("getattr(%s, 'event', None)" % stepp, stepp + '.event'), r, fi.short, 'evaluator is given the step event', 'event argument is %s' % ev, c)
         st = q.enclosing_stmt(c)
         uv = st.targets[0].id if isinstance(st, ast.Assign) and isinstance(st.targets[0], ast.Name) else None
-    loops = [n for n in q.walk(F, False) if isinstance(n, ast.For) and isinstance(strip_cast(n.iter), ast.Name) and strip_cast(n.iter).id == uv]
+    loops = [n for n in q.walk(F, False) if isinstance(n, ast.For) and ((isinstance(strip_cast(n.iter), ast.Name) and strip_cast(n.iter).id == uv)
+                                                                      or any(strip_cast(n.iter) is c_ for c_ in disp))]
     run.check(len(loops) == 1, r, fi.short, 'loop over the unsatisfied conditions', 'missing', F)
     for lp in loops:
         first = lp.body[0]
@@ -311,6 +312,14 @@ def rules_predicates(run):
                         good = c is not None and c[0] == 'in' and c[3] and c[1] == p_ and c[2] in ('self._interpreter.configuration', 'self._interpreter._configuration')
                     elif nm == 'received':
                         good = c is not None and c[0] == '==' and c[3] and p_ in (c[1], c[2]) and ({c[1], c[2]} - {p_}) <= {"getattr(event, 'name', None)", 'event.name'}
+                    elif isinstance(strip_cast(lam.body), ast.Call) and isinstance(strip_cast(lam.body).func, ast.Name) and strip_cast(lam.body).func.id == 'any':
+                        # any(e.name == name for e in self._interpreter._sent_events)
+                        g_ = strip_cast(lam.body).args[0] if strip_cast(lam.body).args else None
+                        good = isinstance(g_, (ast.GeneratorExp, ast.ListComp)) and len(g_.generators) == 1 and not g_.generators[0].ifs and \
+                            q.unparse(g_.generators[0].iter) == 'self._interpreter._sent_events' and isinstance(g_.generators[0].target, ast.Name)
+                        if good:
+                            ce = q.canon_atom(g_.elt)
+                            good = ce is not None and ce[0] == '==' and ce[3] and {ce[1], ce[2]} == {p_, g_.generators[0].target.id + '.name'}
                     else:
                         b = strip_cast(lam.body)
                         good = c is not None and c[0] == 'in' and c[3] and c[1] == p_ and isinstance(b, ast.Compare)
